@@ -49,7 +49,7 @@ static void setup(AsmContext &ctx)
   ASSUME(ctx.pass == 1 || ctx.pass == 2);
   ASSUME(ctx.address >= 0 && ctx.address < (1 << 30));
   ASSUME(ctx.bytes_per_address == 1 || ctx.bytes_per_address == 2 || ctx.bytes_per_address == 4 || ctx.bytes_per_address == 8);
-  g_a0 = ctx.address; g_neval = 0; g_nwrites = 0; g_seq_ok = 1; g_dl_ok = 1; g_val_ok = 1; g_errors = 0;
+  g_a0 = ctx.address; g_neval = 0; g_nwrites = 0; g_seq_ok = 1; g_dl_ok = 1; g_val_ok = 1; g_errors = 0; g_range_errors = 0;
   g_ev_val0 = nondet_int(); g_ev_res0 = nondet_int(); g_ev_val1 = nondet_int(); g_ev_res1 = nondet_int(); g_expect_res = nondet_int();
   ASSUME((g_ev_res0 == 0 || g_ev_res0 == -1) && (g_ev_res1 == 0 || g_ev_res1 == -1) && (g_expect_res == 0 || g_expect_res == -1));
   g_p_address = &ctx.address;
@@ -79,6 +79,7 @@ extern "C" void h_fill()
   else
   {
     OBL(g_errors > 0, "C05.fill: failure is reported with a diagnostic");
+    if (g_range_errors > 0) OBL(g_ev_val0 < -128 || g_ev_val0 > 255, "C05.fill: a range error is raised only for a fill value outside -128..255");
     OBL(g_nwrites == 0 && ctx.address == g_a0, "C05.fill: nothing placed on failure");
   }
   CANARY("h_fill end");
